@@ -268,6 +268,11 @@ func runC11(r *an.Run) {
 							if !fl.Before([]an.Site{ws[i]}, s) {
 								okAdv = false
 							}
+							// also on the error path: whatever the writer
+							// accepted before failing must not be sent again
+							if !fl.PostDominated(ws[i], []an.Site{s}) {
+								o.FailAt(fl.ID+"#advance-skipped-"+fld, s.Where(), "after the Write of %s some path (the error return) leaves Flush without advancing the buffer by the bytes that were accepted", fld)
+							}
 						}
 					}
 					if !okAdv {
